@@ -2,7 +2,8 @@
    Proofs.v and followed by Print Assumptions.
 
    [step c v f e] is the literal transcription of pkg/ppp/fsm.go (Model.v part 1); v = Repaired is
-   fsm.go with fixes/C05_fsm_rfc1661_cells.patch, v = Defective is fsm.go as it stands.
+   fsm.go with fixes/C05_fsm_rfc1661_cells.patch and fixes/C05_ncp_lcp_only_codes.patch,
+   v = Defective is fsm.go as it stands.  c = (maxConf, maxTerm, is this an LCP instance).
    [rfc1661] is the table of RFC 1661 section 4.1 transcribed independently (Model.v part 2).
    All theorems hold for every configuration c (maxConf, maxTerm), every value of the automaton's
    variables (hence every restart-counter class and identifier class) and every event. *)
@@ -16,15 +17,23 @@ Open Scope Z_scope.
    stale-identifier Ack/Nak/Reject, short Echo-Request, Protocol-Reject outside Opened) change
    nothing; "-" cells change nothing (an unknown code is still Code-Rejected). *)
 Theorem C05_table :
-  forall c f e, conformsb f e (step c Repaired f e) = true.
+  forall c f e, conformsb c f e (step c Repaired f e) = true.
 Proof. exact table_repaired. Qed.
 Print Assumptions C05_table.
 
-(* Today's code agrees with the table everywhere except in the eleven cells of [bad_cells] ... *)
+(* With the cells patch alone the table already holds for every LCP instance. *)
+Theorem C05_table_lcp_cells_patch :
+  forall c v f e, fix_cells v = true -> lcp c = true -> conformsb c f e (step c v f e) = true.
+Proof. exact table_lcp_cells_fixed. Qed.
+Print Assumptions C05_table_lcp_cells_patch.
+
+(* Today's code agrees with the table everywhere except in the eleven cells of [bad_cells] and
+   except for the LCP-only codes 8-11 arriving at an NCP ... *)
 Theorem C05_table_current_code_partial :
   forall c f e,
-  conformsb f e (step c Defective f e) = true \/
-  exists re, classify f e = Some re /\ is_bad_cell (st f) re = true.
+  conformsb c f e (step c Defective f e) = true \/
+  (exists re, classify c f e = Some re /\ is_bad_cell (st f) re = true) \/
+  ncp_lcp_code c e = true.
 Proof. exact table_defective_off_bad. Qed.
 Print Assumptions C05_table_current_code_partial.
 
@@ -33,10 +42,21 @@ Print Assumptions C05_table_current_code_partial.
 Theorem C05_table_refuted :
   forall cell, In cell bad_cells ->
   exists es e, let f := run default_cfg Defective init es in
-    st f = fst cell /\ classify f e = Some (snd cell) /\
-    conformsb f e (step default_cfg Defective f e) = false.
+    st f = fst cell /\ classify default_cfg f e = Some (snd cell) /\
+    conformsb default_cfg f e (step default_cfg Defective f e) = false.
 Proof. exact table_defective_refuted. Qed.
 Print Assumptions C05_table_refuted.
+
+(* An IPCP/IPv6CP instance in Opened answers an Echo-Request (an unknown code to an NCP) with an
+   Echo-Reply where the table says Code-Reject. *)
+Theorem C05_ncp_codes_refuted :
+  exists es e, let f := run ncp_cfg Defective init es in
+    classify ncp_cfg f e = Some RUC /\
+    outs (step ncp_cfg Defective f e) = [Ser 9] /\
+    outs (step ncp_cfg Repaired f e) = [Scj 2 9 9] /\
+    conformsb ncp_cfg f e (step ncp_cfg Defective f e) = false.
+Proof. exact ncp_codes_refuted. Qed.
+Print Assumptions C05_ncp_codes_refuted.
 
 (* The restart counter is exactly what the irc/zrc actions of the step say (both variants). *)
 Theorem C05_restart_counter :
@@ -91,7 +111,7 @@ Print Assumptions C05_updown_alternate.
 (* ... and an up is outstanding exactly while the automaton is in Opened. *)
 Theorem C05_up_iff_opened :
   forall c v es, up_after false (trace c v init es) = is_opened (st (run c v init es)).
-Proof. intros c v es. exact (up_iff_opened_from c v es init). Qed.
+Proof. exact up_iff_opened_init. Qed.
 Print Assumptions C05_up_iff_opened.
 
 (* A This-Layer-Up is reported only when (ours) a Configure-Ack carrying the identifier of our
@@ -202,9 +222,9 @@ Proof. exact fresh_negotiation_refuted. Qed.
 Print Assumptions C05_fresh_negotiation_budget_refuted.
 
 Example C05_fresh_negotiation_nonvacuous :
-  let f := run (mkCfg 2 1) Repaired init [EOpen; EUp; RCRp; ETimeout; ETimeout; EInput 2 3 CGood 0] in
-  timer_ok (mkCfg 2 1) Repaired init [EOpen; EUp; RCRp; ETimeout; ETimeout; EInput 2 3 CGood 0] = true /\
-  st f = Opened /\ existsb is_scr (outs (step (mkCfg 2 1) Repaired f RCRp)) = true /\
-  restart (step (mkCfg 2 1) Repaired f RCRp) = 2.
+  let f := run (mkCfg 2 1 true) Repaired init [EOpen; EUp; RCRp; ETimeout; ETimeout; EInput 2 3 CGood 0] in
+  timer_ok (mkCfg 2 1 true) Repaired init [EOpen; EUp; RCRp; ETimeout; ETimeout; EInput 2 3 CGood 0] = true /\
+  st f = Opened /\ existsb is_scr (outs (step (mkCfg 2 1 true) Repaired f RCRp)) = true /\
+  restart (step (mkCfg 2 1 true) Repaired f RCRp) = 2.
 Proof. exact fresh_nonvac. Qed.
 Print Assumptions C05_fresh_negotiation_nonvacuous.
